@@ -16,6 +16,8 @@ def seeded_variant(d, prop):
         subprocess.run(["git", "init", "-q"], cwd=dst, capture_output=True)
         r = subprocess.run(["git", "apply", os.path.join(d, "patch.diff")], cwd=dst, capture_output=True, text=True)
         if r.returncode != 0:
+            r = subprocess.run(["patch", "-p1", "--fuzz=3", "-s", "-i", os.path.join(d, "patch.diff")], cwd=dst, capture_output=True, text=True)
+        if r.returncode != 0:
             res["status"] = "skipped"; res["why"] = "patch does not apply to the current tree"
             return res
         shutil.rmtree(os.path.join(dst, ".git"), ignore_errors=True)
@@ -27,6 +29,36 @@ def seeded_variant(d, prop):
         out = r.stdout
         res["rules"] = sorted(set(l.split()[1] for l in out.splitlines() if l.startswith("  rule ")))
         res["status"] = "fired" if (r.returncode == 1 and "VIOLATION property=" + prop in out) else "MISSED"
+        return res
+    finally:
+        shutil.rmtree(tmp, ignore_errors=True)
+
+def benign_variant(d, prop):
+    """a behaviour-preserving refactoring from /verif/benign: this property's check must stay silent on it"""
+    tmp, dst, vd = st.scratch_copy()
+    res = {"id": os.path.basename(d), "prop": prop, "kind": "benign"}
+    try:
+        subprocess.run(["git", "init", "-q"], cwd=dst, capture_output=True)
+        r = subprocess.run(["git", "apply", os.path.join(d, "patch.diff")], cwd=dst, capture_output=True, text=True)
+        if r.returncode != 0:
+            r = subprocess.run(["patch", "-p1", "--fuzz=3", "-s", "-i", os.path.join(d, "patch.diff")], cwd=dst, capture_output=True, text=True)
+        if r.returncode != 0:
+            res["status"] = "skipped"
+            return res
+        shutil.rmtree(os.path.join(dst, ".git"), ignore_errors=True)
+        b = subprocess.run(["go", "build", "-o", os.devnull, "."], cwd=dst, env=st.ENV, capture_output=True, text=True)
+        if b.returncode != 0:
+            res["status"] = "skipped"
+            return res
+        r = subprocess.run([st.BIN, "-repo", dst, "-verif", vd, "-prop", prop], env=st.ENV, capture_output=True, text=True)
+        alarm = r.returncode != 0 or ("VIOLATION property=" in r.stdout)
+        if not alarm:
+            res["status"] = "silent"
+        elif os.path.exists(os.path.join(d, "EXPECTED_ALARM")):
+            res["status"] = "known-alarm"
+        else:
+            res["status"] = "ALARM"
+            res["rules"] = sorted(set(l.split()[1] for l in r.stdout.splitlines() if l.startswith("  rule ")))
         return res
     finally:
         shutil.rmtree(tmp, ignore_errors=True)
@@ -69,6 +101,28 @@ def main():
                 n["failed"] += 1
                 print(f"SENSITIVITY-WARNING property={prop} variant={r['id']} status={s} (the seeded change was not handled as expected; the verdict on /repo is unaffected)")
         out.append({"id": r["id"], "status": s, "expected_rule": r.get("expect", ""), "rules_fired": r.get("rules")})
+    # specificity: behaviour-preserving refactorings written by others must not make this check fire
+    bdirs = sorted(os.path.dirname(p) for p in glob.glob(os.path.join(V, "benign", "*", "patch.diff")))
+    with cf.ThreadPoolExecutor(max_workers=8) as ex:
+        bres = list(ex.map(lambda d: benign_variant(d, prop), bdirs))
+    b = {"applied": 0, "silent": 0, "known_alarm": 0, "alarm": 0, "skipped": 0}
+    balarms = []
+    for r in bres:
+        if r["status"] == "skipped":
+            b["skipped"] += 1
+            continue
+        b["applied"] += 1
+        if r["status"] == "silent":
+            b["silent"] += 1
+        elif r["status"] == "known-alarm":
+            b["known_alarm"] += 1
+            balarms.append({"id": r["id"], "status": "known-alarm"})
+        else:
+            b["alarm"] += 1
+            balarms.append({"id": r["id"], "status": "ALARM", "rules_fired": r.get("rules")})
+            print(f"SPECIFICITY-WARNING property={prop} refactoring={r['id']} rules={r.get('rules')} (a behaviour-preserving refactoring makes this check fire; the verdict on /repo is unaffected)")
+    ev["coverage"]["specificity"] = dict(b, alarms=balarms, note="behaviour-preserving refactorings (/verif/benign, written by independent sub-agents) applied to scratch copies of the current tree; this property's check must stay silent")
+    print(f"{prop} specificity: {b}")
     ev["coverage"]["sensitivity"] = dict(n, variants=out, note="seeded single-construct changes applied to scratch copies of the current tree; exit code and VIOLATION lines depend on /repo alone")
     json.dump(ev, open(evp, "w"), indent=1)
     print(f"{prop} sensitivity: {n}")
